@@ -20,6 +20,12 @@ def gen_ops(rng, eps, small=False):
 def corpus():
     W = lambda s=0: ["W", s, None, True]  # noqa: E731
     return [
+        # fillers obtained early (before another session completes) and entered afterwards: root after root, root after sub-directory, same sub-directory
+        {"eps": 2, "sessions": [{"kind": "filler", "sub": [], "reopen": False, "ops": [W(), W(), W()]},
+                                {"kind": "filler", "sub": [], "reopen": False, "ops": [W(), W()], "early": True},
+                                {"kind": "filler", "sub": [3], "reopen": False, "ops": [W(), W(1)]},
+                                {"kind": "filler", "sub": [], "reopen": False, "ops": [W()], "early": True},
+                                {"kind": "filler", "sub": [3], "reopen": False, "ops": [W(), W()], "early": True}]},
         # F1 witnesses: reuse of a sub-directory; a session in a known child's parent chain
         {"eps": 2, "sessions": [{"kind": "filler", "sub": [7], "reopen": False, "ops": [W(), W(), W()]},
                                 {"kind": "filler", "sub": [7], "reopen": False, "ops": [W()]}]},
@@ -70,6 +76,8 @@ def gen_history(rng):
             sub = base + [rng.choice([1, 2, 3])] if len(base) < 3 else base
         used.append(sub)
         sessions.append({"kind": "filler", "sub": sub, "reopen": reopen, "ops": gen_ops(rng, eps)})
+        if sessions[:-1] and not reopen and rng.random() < 0.2:
+            sessions[-1]["early"] = True       # the filler object is obtained before the previous session runs and entered only afterwards
     h = {"eps": eps, "sessions": sessions}
     r = rng.random()
     if r < 0.15:
